@@ -143,7 +143,16 @@ def run_refactor(name_dir) -> dict:
                     if match_known(prop, o, known) is not None:
                         continue
                     fired.setdefault(o.rule + " " + o.construct, []).append(prop)
-        return {"name": name, "status": "ran", "fired": fired, "errors": sorted(set(errors))}
+        # a feature pull request may replace a mechanism a rule is written for: such reports are triaged by hand and listed, rule by
+        # rule with the reason, in <dir>/expected.json — they are shown, but only reports that are NOT listed count as false alarms
+        expected = {}
+        ef = os.path.join(d, "expected.json")
+        if os.path.exists(ef):
+            expected = json.load(open(ef)).get("rules", {})
+        triaged = {k: v for k, v in fired.items() if k.split(" ")[0] in expected}
+        fired = {k: v for k, v in fired.items() if k.split(" ")[0] not in expected}
+        stale = sorted(r_ for r_ in expected if not any(k.split(" ")[0] == r_ for k in triaged))
+        return {"name": name, "status": "ran", "fired": fired, "errors": sorted(set(errors)), "triaged": triaged, "expected": expected, "stale": stale}
     finally:
         shutil.rmtree(tmp, ignore_errors=True)
 
@@ -152,7 +161,7 @@ def main_refactors(base: str, names: List[str]) -> int:
     names = names or sorted(d for d in os.listdir(base) if os.path.exists(os.path.join(base, d, "patch.diff")))
     with ProcessPoolExecutor(max_workers=16) as ex:
         results = list(ex.map(run_refactor, [(n, base) for n in names]))
-    bad = 0
+    bad = n_tri = 0
     for r in results:
         if r["status"] != "ran":
             print(f"{r['name']:24} {r['status']} {r.get('why', '')[:150]}")
@@ -164,9 +173,15 @@ def main_refactors(base: str, names: List[str]) -> int:
                 print(f"      {k[:170]}  [{','.join(sorted(set(ps)))}]")
             for e in r["errors"]:
                 print(f"      ANALYSIS-ERROR {e[:200]}")
+        elif r.get("triaged"):
+            n_tri += 1
+            print(f"{r['name']:24} reports triaged as expected: " + "; ".join(f"{rid} ({len([k for k in r['triaged'] if k.split(' ')[0] == rid])})" for rid in sorted(r["expected"]) if rid not in r["stale"]))
         else:
             print(f"{r['name']:24} silent")
-    print(f"{len(results) - bad}/{len(results)} behaviour-preserving refactorings leave every check silent")
+        for rid in r.get("stale", []):
+            print(f"      note: expected.json lists {rid}, which no longer reports anything here")
+    print(f"{len(results) - bad}/{len(results)} behaviour-preserving refactorings leave every check silent"
+          + (f" ({n_tri} of them only after triage: their reports are listed with reasons in expected.json)" if n_tri else ""))
     return 0
 
 
